@@ -416,7 +416,7 @@ inline RunResult run_parallel(uint64_t N, const CaseFn& fn, const DescFn& descri
    std::vector<uint64_t> resumeA(W, 0), resumeB(W, 0);   // rest of the chunk a crashed worker was in
    std::vector<int> startPass(W, 0);
    std::vector<int> gen(W, 0);
-   std::vector<uint64_t> lastSeq(W, 0);
+   std::vector<uint64_t> lastSeq(W, 0), lastSub(W, 0);
    std::vector<double> lastChange(W, now_s());
    std::vector<double> lastCpu(W, 0.0);
    std::vector<bool> active(W, true);
@@ -510,6 +510,7 @@ inline RunResult run_parallel(uint64_t N, const CaseFn& fn, const DescFn& descri
       lastChange[w] = now_s();
       lastCpu[w] = 0;
       lastSeq[w] = shm[w].seq;
+      lastSub[w] = shm[w].sub;
    };
 
    for(int w = 0; w < W; ++w) spawn(w);
@@ -528,7 +529,8 @@ inline RunResult run_parallel(uint64_t N, const CaseFn& fn, const DescFn& descri
             died = true;
          else
          {
-            if(shm[w].seq != lastSeq[w]) { lastSeq[w] = shm[w].seq; lastChange[w] = now_s(); lastCpu[w] = proc_cpu_s(pid[w]); }
+            // progress = a new case or a new sub-case (set_sub): the watchdog limit applies to one sub-case, a case may consist of many
+            if(shm[w].seq != lastSeq[w] || shm[w].sub != lastSub[w]) { lastSeq[w] = shm[w].seq; lastSub[w] = shm[w].sub; lastChange[w] = now_s(); lastCpu[w] = proc_cpu_s(pid[w]); }
             else if(now_s() - lastChange[w] > opt.watchdog_s &&
                     (proc_cpu_s(pid[w]) - lastCpu[w] > opt.watchdog_s || now_s() - lastChange[w] > 15 * opt.watchdog_s))
             {
